@@ -49,6 +49,7 @@ type Profile struct {
 	SmallPowers          bool   // powers 1..3 (slashing forfeiture boundary)
 	HostileDocs          bool   // option documents that pass validation but are odd
 	HostileDocsWide      bool   // ... and the whole list of hostile documents of C09
+	Consensus            int    // percent of the votes cast by a not yet decided voter for the option that leads (proposals pass more often)
 }
 
 func defaultWeights() map[string]int {
@@ -954,6 +955,25 @@ func (s *GenSource) genTx(w *World, b *Block) ([]byte, string) {
 					choice = int32((lead + 1 + unif(t, len(pr.Options)-1, "defectTo")) % len(pr.Options))
 				}
 			}
+			if s.P.Consensus > 0 && len(pr.Options) > 0 && pct(t, s.P.Consensus, "consensusVote") {
+				// the electorate agrees: somebody who has not voted yet backs the option with the most power behind it
+				best := 0
+				for i, v := range pr.Votes {
+					if i < len(pr.Options) && v > pr.Votes[best] {
+						best = i
+					}
+				}
+				choice = int32(best)
+				var undecided []*Actor
+				for _, a := range voters {
+					if pr.Voters[ak(a.Addr)].Choice < 0 {
+						undecided = append(undecided, a)
+					}
+				}
+				if len(undecided) > 0 {
+					sp.from = pick(t, undecided, "undecidedVoter")
+				}
+			}
 			if pct(t, 6, "badChoice") {
 				choice = int32(pick(t, []int{-1, len(pr.Options), math.MaxInt32, math.MinInt32}, "badChoiceVal"))
 			}
@@ -1103,6 +1123,17 @@ var hostileDocs = []string{
 	`{"slashRatio":"101","signedBlocksWindow":"0"}`, `{"rewardPerPower":""}`, `{"gasPrice":""}`, `{"minTrxGas":"18446744073709551616"}`,
 	`{"a":{"b":{"c":[1,2,{"d":null}]}}}`, `{"version":"2","maxValidatorCnt":"3"}`, `{"gasPrice":"10","x":""}`, `{"minValidatorStake":""}`,
 	"{\"gasPrice\":\"1\x00\"}", `{"gasPrice":"115792089237316195423570985008687907853269984665640564039457584007913129639936"}`,
+	// values that decode and are not negative, but extreme
+	`{"signedBlocksWindow":"1"}`, `{"signedBlocksWindow":"1","minSignedBlocks":"9223372036854775807"}`, `{"minSignedBlocks":"9223372036854775807"}`,
+	`{"slashRatio":"9223372036854775807"}`, `{"slashRatio":"101"}`, `{"maxValidatorCnt":"9223372036854775807"}`, `{"maxValidatorCnt":"1"}`,
+	`{"lazyRewardBlocks":"9223372036854775807"}`, `{"lazyApplyingBlocks":"9223372036854775807"}`, `{"minVotingPeriodBlocks":"9223372036854775807"}`,
+	`{"maxVotingPeriodBlocks":"9223372036854775807"}`, `{"version":"9223372036854775807"}`,
+	`{"rewardPerPower":"115792089237316195423570985008687907853269984665640564039457584007913129639935"}`,
+	`{"gasPrice":"115792089237316195423570985008687907853269984665640564039457584007913129639935"}`,
+	`{"minValidatorStake":"115792089237316195423570985008687907853269984665640564039457584007913129639935"}`,
+	`{"minDelegatorStake":"115792089237316195423570985008687907853269984665640564039457584007913129639935"}`,
+	`{"minTrxGas":"18446744073709551615"}`, `{"maxTrxGas":"1"}`, `{"maxBlockGas":"1"}`, `{"maxBlockGas":"18446744073709551615","maxTrxGas":"18446744073709551615"}`,
+	`{"minSelfStakeRatio":"9223372036854775807"}`, `{"maxUpdatableStakeRatio":"9223372036854775807"}`, `{"maxIndividualStakeRatio":"1"}`,
 }
 
 func (s *GenSource) genOption(w *World) []byte {
